@@ -174,7 +174,6 @@ def main():
         first = rng.choice(ERRS)
         outcomes = [first if rng.random() < 0.7 else rng.choice(ERRS) for _ in range(n)]
         run_case(retriers, catchers, outcomes, rng.choice(raws))
-    shutil.rmtree(tmpd, ignore_errors=True)
 
     F20 = "F20"
     PRE = "From Coq Require Import QArith.\nClose Scope Q_scope."
@@ -196,6 +195,71 @@ def main():
         if r2 is not None:
             for i in r2["c07_model"][:3]:
                 ck.broken.append("correspondence retry: model and implementation differ on %r" % (descs[i],))
+    # ---- retry counters do not leak between a Parallel / Map state and the states of its branches (in either direction):
+    # a fan-out with a Retry around one Task with its own Retry, the Task always failing: (outer+1) x (inner+1) invocations, with the inner back-off
+    # starting afresh in every attempt of the fan-out and the outer interval between attempts
+    nested = 0
+    for kind in ("Parallel", "Map"):
+        for pm, tm, pi, ti in ([(1, 1, 3, 1), (2, 2, 5, 1), (1, 3, 4, 1), (3, 1, 2, 1), (2, 1, 3, 2)] if thorough else [(1, 1, 3, 1), (2, 2, 5, 1), (1, 3, 4, 1)]):
+            inner = {"StartAt": "T", "States": {"T": {"Type": "Task", "Resource": sim.FN + "f", "End": True,
+                                                     "Retry": [{"ErrorEquals": ["A"], "IntervalSeconds": ti, "MaxAttempts": tm, "BackoffRate": 2}]}}}
+            outer = {"Type": kind, "End": True, "Retry": [{"ErrorEquals": ["States.ALL"], "IntervalSeconds": pi, "MaxAttempts": pm, "BackoffRate": 1}]}
+            if kind == "Parallel":
+                outer["Branches"] = [inner]
+            else:
+                outer.update(ItemsPath="$.one", Iterator=inner)
+            w.register(ARN, {"StartAt": "P", "States": {"P": outer}})
+            n0 = len(w.trace)
+            w.start_execution(ARN, {"one": [1]})
+            r = w.run(worker=lambda req: {"errorType": "A", "errorMessage": "always"}, max_steps=2000)
+            tr = list(zip(w.trace[n0:], w.trace.times[n0:]))
+            rpcs = [tm_ for t, tm_ in tr if t[0] == "rpc"]
+            for st_ in (w.executions(), w.instances["i1"].engine.execution_history):
+                for k in list(st_.keys()):
+                    del st_[k]
+            delays = [int(round(b - a)) for a, b in zip(rpcs, rpcs[1:])]
+            per_attempt = [ti * 2 ** k for k in range(tm)]
+            expected = []
+            for a in range(pm + 1):
+                expected += per_attempt + ([pi] if a < pm else [])
+            nested += 1
+            d = {"state": kind, "outer_retry": outer["Retry"], "inner_retry": inner["States"]["T"]["Retry"], "task": "always fails with A",
+                 "observed_delays_between_invocations_s": delays, "expected": expected, "run": r}
+            if r != "quiescent" or delays != expected:
+                ck.violation("retry counters leaked between a %s state and the Task in its branch: the Task was invoked %d times with delays %r, the policy gives %d invocations with delays %r: %s"
+                             % (kind, len(rpcs), delays, len(expected) + 1, expected, json.dumps(d)[:700]), {"case": d})
+    # a catcher of a Parallel / Map state places the Error Output into the ORIGINAL input of that state (not into the input of the branch state that failed)
+    for kind in ("Parallel", "Map"):
+        for rp in ("$.caught", "$.a.err"):        # (at "$" the data becomes an object with an Error member, which the engine reads as a failure: finding F16 of C01)
+            inner = {"StartAt": "Q", "States": {"Q": {"Type": "Pass", "Result": {"branch": "local"}, "Next": "T"}, "T": {"Type": "Task", "Resource": sim.FN + "f", "End": True}}}
+            outer = {"Type": kind, "End": True, "Catch": [{"ErrorEquals": ["States.ALL"], "ResultPath": rp, "Next": "H"}]}
+            if kind == "Parallel":
+                outer.update(Branches=[inner], Parameters={"p": 1})
+            else:
+                outer.update(ItemsPath="$.one", Iterator=inner)
+            w.register(ARN, {"StartAt": "P", "States": {"P": outer, "H": {"Type": "Pass", "End": True}}})
+            n0 = len(w.trace)
+            raw = {"one": [{"item": 1}], "a": {"keep": True}}
+            w.start_execution(ARN, json.loads(json.dumps(raw)))
+            r = w.run(worker=lambda req: {"errorType": "A", "errorMessage": "always"}, max_steps=400)
+            term = [t for t in w.trace[n0:] if t[0] == "broadcast" and t[3]["detail"]["status"] in ("SUCCEEDED", "FAILED")]
+            for st_ in (w.executions(), w.instances["i1"].engine.execution_history):
+                for k in list(st_.keys()):
+                    del st_[k]
+            nested += 1
+            got = json.loads(term[0][3]["detail"]["output"]) if len(term) == 1 and term[0][3]["detail"]["status"] == "SUCCEEDED" else None
+            eo = {"Error": "A", "Cause": "<cause>"}
+            want = eo if rp == "$" else dict(raw, caught=eo) if rp == "$.caught" else dict(raw, a=dict(raw["a"], err=eo))
+
+            def nocause(v):
+                if isinstance(v, dict):
+                    return {k: ("<cause>" if k == "Cause" and "Error" in v else nocause(x)) for k, x in v.items()}
+                return [nocause(x) for x in v] if isinstance(v, list) else v
+            d = {"state": kind, "catch": outer["Catch"], "input": raw, "observed_output": got, "expected_output": want, "run": r}
+            if r != "quiescent" or nocause(got) != want:
+                ck.violation("the catcher of a %s state did not place the Error Output by its ResultPath into the state's original input: %s" % (kind, json.dumps(d)[:900]), {"case": d})
+    ck.add_group("nested_retry", nested, nested, [])
+    shutil.rmtree(tmpd, ignore_errors=True)
     retried = sum(1 for d in descs if d["observed_delays_us"])
     caught = sum(1 for d in descs if str(d["observed"]).startswith("H"))
     ck.add_group("policy", len(oracle_cases), min(retried, len(descs) - retried) + caught, descs[5:7], with_retries=retried, caught=caught,
@@ -206,7 +270,7 @@ def main():
                       "and visits ending in a catcher")
     ck.assumptions = ["BackoffRate values are dyadic so that interval * rate^k is exact in floating point",
                       "States.TaskFailed in ErrorEquals matches every reported error (the engine's documented reading)",
-                      "Map and Parallel as the retried state are exercised by the engine-group checks (same handle_error code)"]
+                      "Map and Parallel as the retried state: a directed family here (a fan-out with Retry around a Task with Retry, counters must not leak either way) and the engine-group checks (same handle_error code)"]
     ck.finish(BASE_TRUST + ["harness/sim.py (simulated fabric, virtual clock)", "RetrySpec.spec_run is the specification (per-retrier counters)"])
 
 
